@@ -411,48 +411,61 @@ def _merging_helper(lib, b, tr, t, merge, seed_local):
 
 @rule("R11.4", 3, "a failing element merges its child state into the visitor before the deserializer error is returned", ["C11"])
 def r11_4(ctx):
+    """Path rule on the visitor method's supergraph: with the accessor's result assumed Err, no path reaches the
+    method's return without passing a call of the child-merge function whose child argument is the state of the
+    seed that was handed to this accessor (directly, or inside a helper the seed's state is passed to)."""
+    from model import PathSens, strace_deep
+
     lib = ctx.lib
     cap, st, src_enum = _capture_fn(lib)
     merge = [b for b in lib.bodies if b.raw.get("impl_self_adt") == st and b.nargs == 2 and b.local_ty(2).startswith(st)]
     ctx.need(len(merge) == 1, "child-merge function (state, child state) not found")
     merge = merge[0]
     n = 0
+    roots = []
     for b in lib.bodies:
-        for bb, t in b.calls():
+        if any((fn_of(t) or {}).get("name") in ("next_element_seed", "next_key_seed", "next_value_seed") for _, t in b.calls()):
+            rb = b
+            while rb.raw["def_kind"] == "Closure" and rb.raw.get("parent") in lib.by_id:
+                rb = lib.by_id[rb.raw["parent"]]
+            if rb not in roots:
+                roots.append(rb)
+    for b in roots:
+        sup = Super(lib, b, depth=3)
+        ps = PathSens(sup, payloads=True)
+        entry_states = ps.explore([(sup.entry, {})])
+        calls = sup.calls()
+        rets = {(sup.entry[0], r) for r in b.return_blocks()}
+        for nn, nb, t in calls:
             f = fn_of(t) or {}
-            if f.get("name") not in ("next_element_seed", "next_key_seed", "next_value_seed"):
+            if f.get("name") not in ("next_element_seed", "next_key_seed", "next_value_seed") or t["dest"]["pr"]:
                 continue
             n += 1
-            seed_tr = trace(b, t["args"][-1])
-            seed_local = None
-            if seed_tr.origin and seed_tr.origin[0] in ("call", "multi"):
-                seed_local = seed_tr.origin[1] if seed_tr.origin[0] == "multi" else seed_tr.origin[2]["dest"]["l"]
-            # Err returns derived from this call's result
-            res = t["dest"]["l"]
-            ok_all = True
-            found = False
-            for bi in sorted(b.reach()):
-                for s in b.blocks[bi]["stmts"]:
-                    if s["k"] == "assign" and s["p"]["l"] == 0 and s["rv"]["k"] == "aggregate" and s["rv"].get("variant") == "Err":
-                        tr = trace(b, s["rv"]["ops"][0])
-                        via_helper = _merging_helper(lib, b, tr, t, merge, seed_local)
-                        if via_helper is not None:
-                            found = True
-                            if not via_helper:
-                                ok_all = False
-                            continue
-                        if tr.origin and tr.origin[0] == "call" and tr.origin[2] is t:
-                            found = True
-                            merges = [(mb, mt) for mb, mt in b.calls() if ((fn_of(mt) or {}).get("resolved") or (fn_of(mt) or {}).get("def")) == merge.id and b.dominates(mb, bi) and b.dominates(bb, mb)]
-                            good = False
-                            for mb, mt in merges:
-                                ctr = trace(b, mt["args"][1])
-                                if ctr.origin and ((ctr.origin[0] == "multi" and ctr.origin[1] == seed_local) or (ctr.origin[0] == "call" and ctr.origin[2]["dest"]["l"] == seed_local)):
-                                    good = True
-                            if not good:
-                                ok_all = False
-            ctx.ob(f"merge:{b.name}:{f['name']}", found and ok_all, site(b, bb),
-                   "the element's state is merged before the error is returned" if found and ok_all else "an element failure returns without merging the element's captured error/source")
+            # the seed handed to the accessor, where it is made
+            from model import strace
+            seed = strace(sup, nn, t["args"][-1])
+            seed_call = seed.origin[2] if seed.origin and seed.origin[0] == "call" else None
+            good = set()
+            for mn, mb, mt in calls:
+                mf = fn_of(mt) or {}
+                if (mf.get("resolved") or mf.get("def")) != merge.id or len(mt["args"]) < 2:
+                    continue
+                ch = strace_deep(sup, mn, mt["args"][1], stop_at=(seed_call,) if seed_call is not None else ())
+                if seed_call is not None and ch.origin and ch.origin[0] == "call" and ch.origin[2] is seed_call and (ch.origin_node[0], ch.origin[1]) == (seed.origin_node[0], seed.origin[1]):
+                    good.add(mn)
+            ps.assume[nn] = (("var", 1), None)
+            starts = []
+            for st_ in entry_states.get(nn, []):
+                for lab, m, f2 in ps.step(nn, st_):
+                    if lab not in ("call", "maycall"):
+                        starts.append((m, f2))
+            reached = ps.explore(starts, removed_nodes=good) if starts else {}
+            del ps.assume[nn]
+            escapes = sorted(r for r in rets if r in reached)
+            ok = bool(starts) and bool(good) and not escapes and not ps.overflow
+            ctx.ob(f"merge:{b.name}:{f['name']}", ok, sup.site(nn),
+                   f"with this accessor failing, every path to the return passes a merge of this element's state ({len(good)} merge call(s))" if ok else
+                   ("an element failure returns without merging the element's captured error/source" + ("" if good else ": no merge call is fed with the state of the seed given to this accessor")))
     ctx.ob("accessor-calls", n >= 3, "lib", f"{n} next_*_seed call(s)")
 
 
